@@ -2,6 +2,7 @@ import Tx3Proofs.C06
 import Tx3Proofs.C06Reduce
 import Tx3Proofs.C06Lower
 import Tx3Proofs.C06Partial
+import Tx3Proofs.C06LowerAdhoc
 #print axioms Tx3.Expr.C06_reported_complete
 #print axioms Tx3.Expr.C06_closes
 #print axioms Tx3.C06_tx_closes
@@ -19,3 +20,6 @@ import Tx3Proofs.C06Partial
 #print axioms Tx3.Expr.C06_args_in_rounds
 #print axioms Tx3.C06_tx_args_in_rounds
 #print axioms Tx3.C06_rounds_pending
+#print axioms Tx3.Lang.lowerDirective_all
+#print axioms Tx3.Lang.lowerTxFull_fresh
+#print axioms Tx3.Lang.lowerTxFull_sealed_WF
